@@ -33,7 +33,12 @@ Files(r) ==
     rank_discovery_after_update |-> r.err = "" => /\ r.disc2.ok
                                      /\ { <<p[1], p[2]>> : p \in Rng(r.disc2.got) } = { <<p[1], p[2]>> : p \in Rng(r.disc2.want) } ]
 
-Clauses(r) == IF r.kind = "overlay" THEN Overlay(r) ELSE Files(r)
+\* one call for several ranks: every file that was written starts with ITS OWN rank's source events, only counter events appended
+WcMulti(r) ==
+  [ no_exception |-> r.err = "",
+    counters_only_append_each |-> r.err = "" => \A f \in Rng(r.files) : f.hasWc => OnlyAppended(f.src, f.wc, {"C"}) ]
+
+Clauses(r) == IF r.kind = "overlay" THEN Overlay(r) ELSE IF r.kind = "wcmulti" THEN WcMulti(r) ELSE Files(r)
 Verdict(r) == LET c == Clauses(r) IN { k \in DOMAIN c : ~c[k] }
 Init == i = 1
 Next == /\ i <= Len(Recs)
